@@ -314,7 +314,7 @@ var plans = map[string]Plan{
 	},
 	"C15": {
 		Level: "exploration",
-		Rule: "cases are (generated type, value, value differing only in go.redact field values, value differing only in go.nolog fields) over programs generated with one field in two carrying go.redact and one in four go.nolog, on fields of every type, in structs, unions, exceptions and function argument / result structs, reached through lists, sets, maps and typedefs; string / binary leaves of redacted fields carry unique markers; zap generation on and off. " +
+		Rule: "cases are (generated type, value, value differing only in go.redact field values, value differing only in go.nolog fields) over programs generated with one field in two carrying go.redact and one in four go.nolog, on fields of every type, in structs, unions, exceptions and function argument / result structs, reached through lists, sets, maps and typedefs; typedefs, structs, unions, exceptions, enums and base / container type expressions carry annotations of other tools (validate.format, owner, pii, ...; slice-annotated sets too), so that the type of a redacted / no-log field often has annotations of its own; string / binary leaves of redacted fields carry unique markers; zap generation on and off. " +
 			"Oracle: String(), Error() and the zap JSON (arrays compared as multisets) are identical for values that differ only in redacted field values; zap JSON is identical for values that differ only in no-log fields; no marker (raw, base64, decimal bytes) occurs in any output; every other set top-level field appears (Go name in String(), label key in zap) and no-log keys are absent. " +
 			"Non-trivial: a redacted field sits at nesting depth >=1 below the printed value. Distinct: SHA-256 of (program, type, value, alternative value).",
 		Assumptions: []string{
